@@ -33,6 +33,7 @@ type FuncContract struct {
 	Pkg       string // package path
 	Requires  []*Clause
 	Ensures   []*Clause
+	Elems     []*Clause // iterator-returning functions: facts about every element the iterator yields (arg0, arg1)
 	Modifies  []*Clause
 	ModGiven  bool
 	Updates   []*Clause // ghost updates "g = e" executed at exit
@@ -68,6 +69,9 @@ type LetDef struct {
 	Expr ast.Expr
 	Text string
 }
+
+// loop contracts of range-over-func loops ("#rf<k>") are stored under ordinal rangeFuncOrdBase + k
+const rangeFuncOrdBase = 1000
 
 type LoopContract struct {
 	Ordinal    int
@@ -140,7 +144,7 @@ var topKeywords = map[string]bool{"fieldbound": true, "devirt": true, "const": t
 var clauseKeywords = map[string]bool{"requires": true, "ensures": true, "modifies": true, "invariant": true, "bodyensures": true, "decreases": true,
 	"arith": true, "inline": true, "panics": true, "nilable": true, "check": true, "trusted": true, "bounded": true, "updates": true,
 	"yields": true, "unclaimed": true, "props": true, "let": true, "pure": true, "fresh": true, "maxpaths": true, "opt": true,
-	"var": true, "assume": true, "show": true, "step": true}
+	"var": true, "assume": true, "show": true, "step": true, "elem": true}
 
 var resultDotRe = regexp.MustCompile(`\bresult\.(\d+)\b`)
 var labelRe = regexp.MustCompile(`^\[([A-Za-z0-9_\-\.:]+)\]\s*`)
@@ -229,7 +233,7 @@ func parseContractFile(path, pkgPath string, pc *PkgContracts) error {
 }
 
 var funcHeadRe = regexp.MustCompile(`^(?:\(\s*(\w+)\s+(\*?)([\w\./\[\]\$,]+)\s*\)\s*)?([\w\./\$]+)\s*$`)
-var loopHeadRe = regexp.MustCompile(`^(.*?)\s*#(\d+)\s*$`)
+var loopHeadRe = regexp.MustCompile(`^(.*?)\s*#(rf)?(\d+)\s*$`)
 var specHeadRe = regexp.MustCompile(`^(?:\(\s*(\w+)\s+\*?([\w\.]+)(?:\[[\w, ]*\])?\s*\)\s*)?(\w+)\s*\(([^)]*)\)\s*([\w\.\[\]\*]*)\s*=\s*(.*)$`)
 
 func funcKey(star, recvType, name string) string {
@@ -344,7 +348,11 @@ func (pc *PkgContracts) addItem(it *rawItem, path string) error {
 		}
 		key := funcKey(fm[2], fm[3], fm[4])
 		var ord int
-		fmt.Sscanf(m[2], "%d", &ord)
+		fmt.Sscanf(m[3], "%d", &ord)
+		if m[2] == "rf" {
+			// "#rf<k>": the range-over-func loop whose body go/ssa lowers to the function literal F$<k>
+			ord += rangeFuncOrdBase
+		}
 		lc := &LoopContract{Ordinal: ord, Line: it.line}
 		for _, c := range it.items {
 			var cl *Clause
@@ -478,7 +486,7 @@ func splitModifies(c rawClause, path string) ([]*Clause, error) {
 func (fc *FuncContract) addClauses(items []rawClause, path string) error {
 	for _, c := range items {
 		switch c.kw {
-		case "requires", "ensures", "panics", "updates":
+		case "requires", "ensures", "panics", "updates", "elem":
 			cc := c
 			if c.kw == "panics" {
 				cc.text = strings.TrimSpace(strings.TrimPrefix(strings.TrimSpace(c.text), "when"))
@@ -499,6 +507,8 @@ func (fc *FuncContract) addClauses(items []rawClause, path string) error {
 				fc.Ensures = append(fc.Ensures, cl)
 			case "panics":
 				fc.PanicsWhen = append(fc.PanicsWhen, cl)
+			case "elem":
+				fc.Elems = append(fc.Elems, cl)
 			}
 		case "modifies":
 			fc.ModGiven = true
